@@ -38,6 +38,12 @@ CLAIMED["C13"] = dict(
     technique="contract-based deductive verification: symbolic execution of the real validators with z3 proxies; exhaustive finite enumeration of masks; inductive visitor step",
     design="DESIGN.md section 4 (C13)")
 
+CLAIMED["C20"] = dict(
+    text="Proof: the real SourceMapping.__init__/GetLineFromOffset/GetLineStartOffset run on an opaque text whose lines have symbolic lengths (real bisect on symbolic offsets) and z3 proves the line of every offset; Location.__str__ is proved to print 1-based line:column ranges relative to each end's own line (formatted numbers traced as tokens); Merge is the hull; UpdateLocations.v_Generic yields, for every node class with opaque children carrying symbolic spans, the hull of own and children's ranges (induction on tree height); every grammar action that calls SetLocation is run on a stand-in production with symbolic token offsets and proved to attach the range of the token the name was taken from. Bounded layout grid for witnesses.",
+    note="Trusted: CPython, pyvc, z3; str.split; PLY lexpos axiom. The number of lines is enumerated 1..5 (line lengths and offsets unbounded symbols) -- the loop of SourceMapping.__init__ is executed, not cut at an invariant. Diagnostic argument order is proved in C12.ctx.add.",
+    technique="contract-based deductive verification: symbolic execution with z3 proxies on opaque text / symbolic token offsets; inductive visitor step for the hull",
+    design="DESIGN.md section 4 (C20)")
+
 NOT_YET = "not built yet in this round (design in DESIGN.md section 4); will be claimed when its obligations run"
 NA = {
     "C17": "pickle round trip across processes is the whole property; no contract within reach of the technique can decide it (DESIGN.md section 5)",
